@@ -253,6 +253,94 @@ def scan_reports(a0: int, a1: int, s0: int, clause: str, active: int, na: int, n
         return True
 
 
+@harness(pre=['0 <= first <= 1 and 0 <= p0 <= 255'], family='classic-controllers', twin=True, timeout=(120, 400),
+         kernels=K + ('bumble.controller.Controller.on_hci_create_connection_command', 'bumble.controller.Controller.send_lmp_packet', 'bumble.controller.Controller.on_lmp_packet'),
+         bounds='one controller pages two peers at the same time; the peers accept in either order (symbolic): each Connection Complete on the initiator names the peer that accepted and arrives only after that peer accepted; both peers report the initiator; a symbolic payload on each handle reaches that peer only')
+def classic_two_pages_at_once(first: int, p0: int) -> bool:
+    first = C(first, 0, 1)
+    with detloop.running() as loop:
+        with untraced():
+            link, (A, B, X), (ta, tb, tx) = _world(loop)
+            for peer in (B, X):
+                A.on_hci_command_packet(hci.HCI_Create_Connection_Command(bd_addr=peer.public_address, packet_type=0xCC18, page_scan_repetition_mode=1, reserved=0, clock_offset=0, allow_role_switch=1))
+            _settle(loop)
+        order = [(B, tb), (X, tx)] if first == 0 else [(X, tx), (B, tb)]
+        done_before = 0
+        handles = {}
+        for peer, tap in order:
+            if len([e for e in ta.of(hci.HCI_Connection_Complete_Event)]) != done_before:
+                return False                      # a completion arrived before its peer accepted
+            peer.on_hci_command_packet(hci.HCI_Accept_Connection_Request_Command(bd_addr=A.public_address, role=hci.Role.PERIPHERAL))
+            _settle(loop)
+            evs = ta.of(hci.HCI_Connection_Complete_Event)
+            if len(evs) != done_before + 1 or evs[-1].status != 0 or bytes(evs[-1].bd_addr) != bytes(peer.public_address):
+                return False
+            pe = [e for e in tap.of(hci.HCI_Connection_Complete_Event) if e.status == 0]
+            if len(pe) != 1 or bytes(pe[0].bd_addr) != bytes(A.public_address):
+                return False
+            handles[peer] = evs[-1].connection_handle
+            done_before += 1
+        if len(set(handles.values())) != 2:
+            return False
+        for peer, tap in order:
+            n_b, n_x = len(tb.of(hci.HCI_AclDataPacket)), len(tx.of(hci.HCI_AclDataPacket))
+            pdu = _send(A, handles[peer], _B(p0))
+            _settle(loop)
+            d_b, d_x = len(tb.of(hci.HCI_AclDataPacket)) - n_b, len(tx.of(hci.HCI_AclDataPacket)) - n_x
+            if (d_b, d_x) != ((1, 0) if peer is B else (0, 1)) or tap.of(hci.HCI_AclDataPacket)[-1].data != pdu:
+                return False
+        return True
+
+
+def _adv_reports(tap):
+    out = []
+    for e in tap.of(hci.HCI_LE_Advertising_Report_Event):
+        out.extend(e.reports)
+    for e in tap.of(hci.HCI_LE_Extended_Advertising_Report_Event):
+        out.extend(e.reports)
+    return out
+
+
+@harness(pre=['0 <= a0 <= 255 and 0 <= b0 <= 255 and a0 != b0 and 0 <= frag <= 1'], family='scanning', twin=True, timeout=(120, 400),
+         kernels=K + ('bumble.controller.AdvertisingSet.send_extended_advertising_data', 'bumble.controller.Controller.on_hci_le_set_extended_advertising_data_command'),
+         bounds='an extended advertising set whose data is replaced while it stays enabled (symbolic bytes before and after; set in one command or in two fragments): reports the scanner receives after the change carry the new data byte for byte, reports before it the old data')
+def extended_advertising_data_changed_while_enabled(a0: int, b0: int, frag: int) -> bool:
+    frag = C(frag, 0, 1)
+    with detloop.running() as loop:
+        with untraced():
+            link, (S, P, Q), (ts, tp, tq) = _world(loop)
+            P.le_features |= hci.LeFeatureMask.LE_EXTENDED_ADVERTISING
+            S.on_hci_command_packet(hci.HCI_LE_Set_Scan_Parameters_Command(le_scan_type=0, le_scan_interval=16, le_scan_window=16, own_address_type=0, scanning_filter_policy=0))
+            S.on_hci_command_packet(hci.HCI_LE_Set_Scan_Enable_Command(le_scan_enable=1, filter_duplicates=0))
+            P.on_hci_command_packet(hci.HCI_LE_Set_Extended_Advertising_Parameters_Command(
+                advertising_handle=1, advertising_event_properties=0x13, primary_advertising_interval_min=32, primary_advertising_interval_max=32, primary_advertising_channel_map=7,
+                own_address_type=0, peer_address_type=0, peer_address=hci.Address.ANY, advertising_filter_policy=0, advertising_tx_power=0, primary_advertising_phy=1,
+                secondary_advertising_max_skip=0, secondary_advertising_phy=1, advertising_sid=0, scan_request_notification_enable=0))
+        Op = hci.HCI_LE_Set_Extended_Advertising_Data_Command.Operation
+        old, new = _B(3, 0xFF, a0, 0x11), _B(3, 0xFF, b0, 0x22)
+        P.on_hci_command_packet(hci.HCI_LE_Set_Extended_Advertising_Data_Command(advertising_handle=1, operation=Op.COMPLETE_DATA, fragment_preference=0, advertising_data=old))
+        P.on_hci_command_packet(hci.HCI_LE_Set_Extended_Advertising_Enable_Command(enable=1, advertising_handles=[1], durations=[0], max_extended_advertising_events=[0]))
+        for _ in range(3):
+            loop.run_ready()
+            loop.advance()
+        loop.run_ready()
+        before = _adv_reports(ts)
+        if not before or any(bytes(r.data) != old for r in before):
+            return False
+        if frag:
+            P.on_hci_command_packet(hci.HCI_LE_Set_Extended_Advertising_Data_Command(advertising_handle=1, operation=Op.FIRST_FRAGMENT, fragment_preference=0, advertising_data=new[:2]))
+            P.on_hci_command_packet(hci.HCI_LE_Set_Extended_Advertising_Data_Command(advertising_handle=1, operation=Op.LAST_FRAGMENT, fragment_preference=0, advertising_data=new[2:]))
+        else:
+            P.on_hci_command_packet(hci.HCI_LE_Set_Extended_Advertising_Data_Command(advertising_handle=1, operation=Op.COMPLETE_DATA, fragment_preference=0, advertising_data=new))
+        loop.run_ready()
+        n0 = len(_adv_reports(ts))
+        for _ in range(3):
+            loop.advance()
+            loop.run_ready()
+        after = _adv_reports(ts)[n0:]
+        return len(after) >= 1 and all(bytes(r.data) == new for r in after)
+
+
 # ------------------------------------------------------------------------------------------
 # device level: Device.connect returns the connection to the requested address
 def _dsettle(loop, n=400):
@@ -387,6 +475,45 @@ def device_dual_mode_connect(slow: int, b_public: int, le_first: int) -> bool:
                     return False
             on_a = [c for c in seen if c.transport == PhysicalTransport.BR_EDR]
             return len(on_a) == 1 and on_a[0] is c_cl
+
+
+@harness(pre=['0 <= pub <= 1 and 0 <= out_first <= 1'], family='devices', twin=True, kernels=K + ('bumble.device.Device.on_le_connection', 'bumble.device.Device.start_advertising'), timeout=(240, 600),
+         bounds='a device M that is peripheral and central at once: M advertises (legacy) with its public or its random address (symbolic), optionally connects OUT to another peripheral first, then a central connects to the address M advertises: M reports that incoming connection with exactly the address it advertised as self_address, equal to the peer_address the central reports, and the outgoing connection keeps its own addresses')
+def device_peripheral_and_central_addresses(pub: int, out_first: int) -> bool:
+    pub, out_first = C(pub, 0, 1), C(out_first, 0, 1)
+    with untraced():
+        detenv.reset()
+        with detloop.running() as loop:
+            link = lnk.LocalLink()
+            devs = []
+            for i, addr in enumerate(('F0:F1:F2:F3:F4:F5', 'F5:F4:F3:F2:F1:F0', 'F7:F6:F5:F4:F3:F2')):
+                c = ctl.Controller(f'C{i}', link=link, public_address=addr.replace('F', 'E', 1))
+                devs.append(bdev.Device(f'D{i}', address=hci.Address(addr), host=bhost.Host(c, c)))
+            for d in devs:
+                loop.create_task(d.power_on())
+            _dsettle(loop)
+            M, P, Cn = devs
+            own = hci.OwnAddressType.PUBLIC if pub else hci.OwnAddressType.RANDOM
+            advertised = M.public_address if pub else M.random_address
+            loop.create_task(M.start_advertising(auto_restart=False, own_address_type=own))
+            _dsettle(loop)
+            if out_first:
+                loop.create_task(P.start_advertising(auto_restart=False))
+                _dsettle(loop)
+                t_out = loop.create_task(M.connect(P.random_address))
+                _dsettle(loop)
+                if not t_out.done() or t_out.exception():
+                    return False
+                if t_out.result().peer_address != P.random_address or t_out.result().role != hci.Role.CENTRAL:
+                    return False
+            incoming = []
+            M.on(M.EVENT_CONNECTION, incoming.append)
+            t_in = loop.create_task(Cn.connect(advertised))
+            _dsettle(loop)
+            if not t_in.done() or t_in.exception() or len(incoming) != 1:
+                return False
+            cc, mc = t_in.result(), incoming[0]
+            return cc.peer_address == advertised and mc.self_address == advertised and mc.role == hci.Role.PERIPHERAL and mc.peer_address == cc.self_address
 
 
 @harness(pre=['0 <= closer <= 1 and 0 <= bystander_adv <= 1'], family='devices', kernels=K + ('bumble.device.Device.create_advertising_set', 'bumble.controller.AdvertisingSet.send_extended_advertising_data'), timeout=(240, 600),
